@@ -47,8 +47,9 @@ static void disarm(void) { CRASHCLS[0] = 0; }
 static struct { char key[140]; double maxpass, minfail; } MK[MAXMK];
 static int nMK; static const char *MFILE; static int mfile_init;
 static void margin_note(const char *key, double ratio) {
-  if (!mfile_init) { MFILE = getenv("VERIF_MARGINS"); mfile_init = 1; }
+  static int all; if (!mfile_init) { MFILE = getenv("VERIF_MARGINS"); all = getenv("VERIF_MARGINS_ALL") != NULL; mfile_init = 1; }
   if (!MFILE) return;
+  if (all) { FILE *o = fopen(MFILE, "a"); if (o) { fprintf(o, "%s\t%.3e\n", key, ratio); fclose(o); } return; }
   int k; for (k = 0; k < nMK; k++) if (!strcmp(MK[k].key, key)) break;
   if (k == nMK) { if (nMK >= MAXMK) return; snprintf(MK[k].key, sizeof MK[k].key, "%s", key); MK[k].maxpass = -1; MK[k].minfail = INFINITY; nMK++; }
   int upd = 0;
@@ -167,10 +168,19 @@ static void op_inv(int lu) {
   char key[160]; snprintf(key, sizeof key, "shape|%s|%s", fn, cls);
   int shp = (int)inv->row == n && (int)inv->col == n; vx_check(shp, key, "%s: result is %zux%zu for order %d", q.tag, inv->row, inv->col, n);
   if (shp) {
-    rmat *I = rm_from(inv), *P = rm_mul(R, I); for (int i = 0; i < n; i++) RM(P, i, i) -= 1;
-    double err = (double)rm_maxabs(P), tol = CSAFE * DEPS * n * (double)kap;          /* statement: M * M^-1 = I ; q = 1 */
+    /* statement: "the inverse routines return M^-1 (M*M^-1 = I)".  Gauss-Jordan (with or without pivoting) and LAPACK's
+     * getri are FORWARD stable, not backward stable: the derived guarantee is |X - M^-1| <= C eps n kappa |M^-1| (q = 1), and
+     * for the product only what follows from it, |M X - I| = |M (X - M^-1)| <= n |M| * C eps n kappa |M^-1|.  (A right
+     * residual of eps*kappa would over-demand: a correct pivoted Gauss-Jordan reaches 0.24 of that allowance on this
+     * alphabet at kappa = 1e6 because cond(U) enters its residual, Higham ASNA 14.4.) */
+    rmat *I = rm_from(inv), *Xr = rm_new(n, n), *P = rm_mul(R, I); for (int i = 0; i < n; i++) RM(P, i, i) -= 1;
+    rm_inv(R, Xr);
+    double xmax = (double)rm_maxabs(Xr), mmax = (double)rm_maxabs(R), tolf = CSAFE * DEPS * n * (double)kap * xmax;
     snprintf(key, sizeof key, "value|%s|%s", fn, cls);
-    judge(err, tol, key, "%s scale %g kappa %.3Lg growth %.3Lg: max|M*Minv - I|", q.tag, q.sc, kap, gam);
+    judge((double)rm_maxabs_diff(I, Xr), tolf, key, "%s scale %g kappa %.3Lg growth %.3Lg: max|Minv - reference inverse|", q.tag, q.sc, kap, gam);
+    snprintf(key, sizeof key, "product|%s|%s", fn, cls);
+    judge((double)rm_maxabs(P), tolf * n * mmax, key, "%s scale %g kappa %.3Lg growth %.3Lg: max|M*Minv - I|", q.tag, q.sc, kap, gam);
+    rm_free(Xr);
     int same = 1; for (int i = 0; i < n; i++) for (int j = 0; j < n; j++) if (m->data[i][j] != q.a[i * n + j]) same = 0;
     snprintf(key, sizeof key, "input-clobbered|%s", fn); vx_check(same, key, "%s: the input matrix was modified", q.tag);
     vx_outcome(hm_hash(inv, (uint64_t)(10 + lu))); rm_free(I); rm_free(P);
@@ -218,22 +228,6 @@ static void op_det(void) {
   rm_free(R); DelMatrix(&m);
 }
 
-/* Local replacement for engine/vnum.c rm_solve (see notes): rm_lu exchanges whole rows, multipliers included, but rm_solve
- * interleaves the exchanges with the forward substitution, which is only right when at most one exchange moves a row that
- * already holds multipliers; its result is wrong e.g. for the 4x4 natural-spline system with spacings 5.39, 4.08, 3.75.
- * Plain Gaussian elimination with partial pivoting on the augmented matrix, long double. Returns 0 if singular. */
-static int ld_solve(const rmat *A, const rmat *B, rmat *X) {
-  int n = A->r, nb = B->c, w = n + nb; rmat *W = rm_new(n, w);
-  for (int i = 0; i < n; i++) { for (int j = 0; j < n; j++) RM(W, i, j) = RM(A, i, j); for (int j = 0; j < nb; j++) RM(W, i, n + j) = RM(B, i, j); }
-  for (int k = 0; k < n; k++) {
-    int p = k; for (int i = k + 1; i < n; i++) if (fabsl(RM(W, i, k)) > fabsl(RM(W, p, k))) p = i;
-    if (RM(W, p, k) == 0) { rm_free(W); return 0; }
-    if (p != k) for (int j = 0; j < w; j++) { ld t = RM(W, k, j); RM(W, k, j) = RM(W, p, j); RM(W, p, j) = t; }
-    for (int i = k + 1; i < n; i++) { ld f = RM(W, i, k) / RM(W, k, k); if (f == 0) continue; for (int j = k; j < w; j++) RM(W, i, j) -= f * RM(W, k, j); }
-  }
-  for (int c = 0; c < nb; c++) for (int i = n - 1; i >= 0; i--) { ld s = RM(W, i, n + c); for (int j = i + 1; j < n; j++) s -= RM(W, i, j) * RM(X, j, c); RM(X, i, c) = s / RM(W, i, i); }
-  rm_free(W); return 1;
-}
 /* ---- op: SolveLSE ------------------------------------------------------------------------------------
  * classes (first that applies):
  *   abs<1e-4          the system contains, or plain elimination produces, a non-zero quantity of magnitude below
@@ -265,7 +259,7 @@ static void op_lse(void) {
     if (bk == 0) { for (int i = 0; i < n; i++) { ld s = 0; for (int j = 0; j < n; j++) s += RM(R, i, j) * (ld)((j % 2 ? -1 : 1) * (j + 1)); RM(b, i, 0) = (double)s; } }   /* x = (1,-2,3,...) */
     else if (bk == 1) { for (int i = 0; i < n; i++) RM(b, i, 0) = q.sc; }
     else { for (int i = 0; i < n; i++) RM(b, i, 0) = vg_val(950, i, 0) * q.sc; }
-    ld_solve(R, b, xr);
+    rm_solve(R, b, xr);
     matrix *eq = hm_new(n, n + 1, NULL); for (int i = 0; i < n; i++) { for (int j = 0; j < n; j++) eq->data[i][j] = q.a[i * n + j]; eq->data[i][n] = (double)RM(b, i, 0); }
     dvector *x; initDVector(&x);                                  /* calling convention of tests/testalgebra.c */
     log_mat("[M|b]", eq);
@@ -325,14 +319,17 @@ static void op_ols(void) {
  *          equal-singular-values  otherwise, kappa = 1 with more than one column: A'A is a multiple of the identity up to
  *                       rounding (the routine takes eigenvectors from the NON-symmetric solver dgeev and uses them as if
  *                       they were orthonormal, which a multiple eigenvalue does not guarantee)
- *          kappa=<k>    otherwise, the condition number fixed by construction */
+ *          kappa<=10 / kappa>=100   otherwise, by the condition number fixed by construction.  Measured on the pinned tree the
+ *                       routine's error grows like eps kappa^4 (eigen-decomposition of (A'A)^2), so it crosses the kappa^2
+ *                       allowance between kappa = 1e2 (worst case 0.97 of the allowance) and 1e3 (median 2.4x, worst 60x above);
+ *                       the two are one class so that the set of keys does not depend on a borderline case */
 static void op_pinv(void) {
   int n = 1 + vx_choose("n-1", NMAX), m = n + vx_choose("m-n", NMAX - n + 1), ki = vx_choose("kappa", 4), si = vx_choose("s1", 3), fam = vx_choose("fam", vx_thorough() ? 3 : 1);
   vx_require(n > 1 || ki == 0);
   double kap = KAP_LS[ki], s1 = S1S[si], A[NMAX * NMAX];
   vg_spectral(fam * 8 + ki + 500, m, n, s1, n > 1 ? pow(kap, -1.0 / (n - 1)) : 1.0, A);
   double smin = s1 / kap; char cls[40];
-  if (smin * smin * smin * smin < 2e-6) snprintf(cls, sizeof cls, "smin^4<1e-6"); else if (n > 1 && ki == 0) snprintf(cls, sizeof cls, "equal-singular-values"); else snprintf(cls, sizeof cls, "kappa=%g", kap);
+  if (smin * smin * smin * smin < 2e-6) snprintf(cls, sizeof cls, "smin^4<1e-6"); else if (n > 1 && ki == 0) snprintf(cls, sizeof cls, "equal-singular-values"); else snprintf(cls, sizeof cls, kap <= 10 ? "kappa<=10" : "kappa>=100");
   matrix *a = hm_new(m, n, A), *inv; initMatrix(&inv);
   log_mat("A", a);
   arm("MatrixMoorePenrosePseudoinverse", cls); MatrixMoorePenrosePseudoinverse(a, inv); disarm(); vx_transition(1);
